@@ -639,3 +639,41 @@ func init() {
 			return obs
 		}})
 }
+
+// SCOPE.closure-lexical — C07 ("macrolet obeys the same rules as defmacro": a
+// macro body sees the variables in scope where it is written) and C01 (lexical
+// scope of flet / labels / lambda): the closure an operator creates for a local
+// function or macro is created over the operator's own environment or a child
+// of it.  A closure created over the root environment still finds globals, so
+// every program whose local functions mention only globals keeps working.
+func init() {
+	register(&Rule{ID: "SCOPE.closure-lexical", Floor: 4,
+		Doc: "in flet, labels, macrolet and lambda every closure construction (<env>.Lambda(formals, body) on the forms of the operator's first argument) uses an environment derived from the operator's own env parameter by the environment constructors — the enclosing environment or the one receiving the bindings — never the root environment or one of unknown origin",
+		Run: func(c *Ctx) []Obligation {
+			const rid = "SCOPE.closure-lexical"
+			var obs []Obligation
+			for _, form := range []string{"flet", "labels", "macrolet", "lambda"} {
+				ev, eu, eprob := c.evaluatorValueScope(form)
+				construct := "form " + form
+				switch {
+				case eprob != "":
+					obs = append(obs, Obligation{Rule: rid, Func: "lisp", Construct: construct, Verdict: Undecided, Detail: eprob})
+				case len(ev.classes) == 0:
+					obs = append(obs, mkOb(c, rid, eu, construct, eu.Decl, Undecided, "no closure construction over the operator's first argument recognised", true))
+				default:
+					bad := ""
+					for cl := range ev.classes {
+						if cl != "outer" && cl != "inner" {
+							bad = cl
+						}
+					}
+					if bad != "" {
+						obs = append(obs, mkOb(c, rid, eu, construct, ev.node, Violated, "a closure of `"+form+"` is created over an environment that is not derived from the operator's own ("+bad+"; sites: "+strings.Join(ev.sites, ", ")+"): the body of the local function or macro cannot see the let-bound variables, parameters and local macros in scope where it is written — it raises unbound symbol, or silently reads a global of the same name", true))
+					} else {
+						obs = append(obs, mkOb(c, rid, eu, construct, ev.node, Proved, "closures over the "+ev.String()+" environment ("+strings.Join(ev.sites, ", ")+")", true))
+					}
+				}
+			}
+			return obs
+		}})
+}
